@@ -39,7 +39,7 @@ COMPONENTS = {
 TIER_RUNS = {
     'quick': {'default': 20000, 'C01': 40000, 'C02': 40000, 'C03': 40000, 'C04': 20000, 'C05': 20000,
               'C06': 25000, 'C07': 16000, 'C08': 25000, 'C15': 25000, 'C09': 10000, 'C10': 7000,
-              'C11': 10000, 'C12': 20000, 'C13': 4500, 'C16': 20000, 'C19': 40000},
+              'C11': 10000, 'C12': 20000, 'C13': 4500, 'C16': 12000, 'C19': 40000},
     'thorough': {'default': 400000, 'C01': 800000, 'C02': 800000, 'C03': 800000, 'C04': 400000,
                  'C05': 400000, 'C06': 500000, 'C07': 300000, 'C08': 500000, 'C15': 500000,
                  'C09': 200000, 'C10': 140000, 'C11': 200000, 'C12': 400000, 'C13': 90000,
